@@ -7,15 +7,17 @@ EXTENDS Integers, Sequences, FiniteSets, TLC
 Ports  == {"Consensus", "Mempool", "Tx"}
 Shapes == {"random_bytes", "truncated_valid", "mutated_valid", "other_ports_valid", "sync_request_for_batch_digest",
            "batch_request_for_block_digest", "sync_request_unknown", "short_or_long_key", "byzantine_member_absurd_rounds",
-           "huge_length_prefix", "empty_and_tiny_transactions"}
+           "huge_length_prefix", "empty_and_tiny_transactions",
+           \* a proposal of the honest leader re-sent with the fields its signature does not cover replaced (TC, the QC's round and votes)
+           "relayed_proposal_unsigned_fields_doctored"}
 \* which shapes make sense on which port
 Applies(s, p) ==
   CASE s \in {"random_bytes", "mutated_valid"} -> TRUE
     [] s \in {"truncated_valid", "other_ports_valid", "sync_request_unknown", "short_or_long_key", "huge_length_prefix"} -> p # "Tx"
-    [] s \in {"sync_request_for_batch_digest", "byzantine_member_absurd_rounds"} -> p = "Consensus"
+    [] s \in {"sync_request_for_batch_digest", "byzantine_member_absurd_rounds", "relayed_proposal_unsigned_fields_doctored"} -> p = "Consensus"
     [] s = "batch_request_for_block_digest" -> p = "Mempool"
     [] s = "empty_and_tiny_transactions" -> p = "Tx"
 Matrix == {<<s, p>> \in Shapes \X Ports : Applies(s, p)}
 Probes == {"commits_continue", "block_sync_answered", "batch_sync_answered", "transaction_batched"}
-ASSUME Cardinality(Matrix) = 20
+ASSUME Cardinality(Matrix) = 21
 =============================================================================
